@@ -1,12 +1,12 @@
 CONSTANTS
-    MaxN = 3
-    Universe = "hostile"
+    MaxN = 2
+    Universe = "ancillary"
     UnpackStaged = FALSE
     ListedMustBeRegular = FALSE
     ManifestHashInjective = FALSE
     ExcuseImmArchive = TRUE
-    ExcuseAncLink = TRUE
+    ExcuseAncLink = FALSE
     ExcuseMerged = TRUE
 SPECIFICATION Spec
-INVARIANTS OnlyAllowed RefusalTouchesNothing
+INVARIANTS OnlyAllowed
 CHECK_DEADLOCK FALSE
